@@ -107,7 +107,7 @@ CLAIMS["C08"] = ("Deductive proof (Verus) on the real PruneList code of the repr
     "Verus contracts + representation invariant on extracted real functions", "6 C08")
 CLAIMS["C16"] = ("Arithmetic, proof-level (Verus, unbounded): on the real SegmentIdentifier code, for every identifier with height <= 62 and idx*2^height < 2^62 and every mmr_size: the first position is the "
     "position of leaf idx*2^height, a full segment is exactly one complete subtree (last = first + 2^(height+1) - 2, and that position has height `height` in the explicit tree), a partial last segment ends "
-    "at mmr_size - 1; capacity/offset/unpruned size as specified. Uses the C07 contracts modularly (included and re-verified). Tamper-resistance of Segment::validate is covered only by the bounded "
+    "at mmr_size - 1; capacity/offset/unpruned size as specified; Desegmenter::calc_bitmap_mmr_sizes (verbatim) never panics and yields leaf count == ceil(output leaves / 1024) and bitmap MMR size == the size of an MMR with that many leaves (found violated on the pinned tree -- a panic for at most 1024 outputs -- and repaired: finding F10). Uses the C07 contracts modularly (included and re-verified). Tamper-resistance of Segment::validate is covered only by the bounded "
     "C11 no-panic unit; Segmenter/Desegmenter assembly, prunable segments with a bitmap, and 'never finalises a wrong state' are not decided.",
     VERUS_TB, "Verus contracts on extracted real functions, reusing the C07 position-arithmetic proofs", "6 C16")
 BOUNDED_ONLY = set()
